@@ -42,14 +42,17 @@ PAT_ALPHA6 = ["a", "{", "}", "1", ",", "*", "?"]
 SUBJ_ALPHA6 = ["a", "{", "}", "1", ","]
 
 
-def gen(R, pat_alpha, subj_alpha, maxp, maxs, name, pairs=False, roots=None):
+def gen(R, pat_alpha, subj_alpha, maxp, maxs, name, pairs=False, roots=None, simulate=None):
     defs = "MCPatAlpha == %s\nMCSubjAlpha == %s\n" % (tla_seq(pat_alpha), tla_seq(subj_alpha))
     cfg = ("INIT Init\nNEXT Next\nINVARIANT Inv\nCONSTANTS\n PatAlpha <- MCPatAlpha\n"
            " SubjAlpha <- MCSubjAlpha\n MaxP = %d\n MaxS = %d\n WithPairs = %s\n" % (maxp, maxs, "TRUE" if pairs else "FALSE"))
     if roots:
         defs += "MCRoots == {%s}\n" % ", ".join(tla_seq(r) for r in roots)
         cfg += " Roots <- MCRoots\n"
-    res = R.tlc("PatternGen", cfg, defs=defs, name=name, timeout=3000)
+    if simulate:
+        res = R.tlc("PatternGen", cfg, defs=defs, name=name, timeout=3000, simulate="num=%d" % simulate, depth=maxp + 1, workers=8)
+    else:
+        res = R.tlc("PatternGen", cfg, defs=defs, name=name, timeout=3000)
     subj, cases = None, []
     for p in res.prints:
         if p[0] == "SUBJ":
@@ -62,6 +65,13 @@ def gen(R, pat_alpha, subj_alpha, maxp, maxs, name, pairs=False, roots=None):
     if roots:
         import itertools
         expect_n = len(set(tuple(r) + t for r in roots for i in range(maxp - len(r) + 1) for t in itertools.product(pat_alpha, repeat=i)))
+    if simulate:
+        seen, uniq = set(), []
+        for c in cases:
+            if len(c["p"]) >= 4 and tuple(c["p"]) not in seen:      # the short ones are enumerated exhaustively elsewhere
+                seen.add(tuple(c["p"]))
+                uniq.append(c)
+        return subj, uniq
     if len(cases) != expect_n:
         raise vlib.MachineryError("PatternGen: %d cases, expected %d" % (len(cases), expect_n))
     return subj, cases
@@ -89,8 +99,8 @@ def explain(rec, subj):
     return dict(pattern=rec["text"], status=rec["st"])
 
 
-def family(R, pat_alpha, subj_alpha, maxp, maxs, name, pairs=False, roots=None):
-    subj, cases = gen(R, pat_alpha, subj_alpha, maxp, maxs, name, pairs, roots)
+def family(R, pat_alpha, subj_alpha, maxp, maxs, name, pairs=False, roots=None, simulate=None):
+    subj, cases = gen(R, pat_alpha, subj_alpha, maxp, maxs, name, pairs, roots, simulate)
     obs, _ = R.drive("match", cases, header=dict(subjects=subj), shards=vlib.NCPU)
     if len(obs) != len(cases):
         raise vlib.MachineryError("driver returned %d of %d records" % (len(obs), len(cases)))
@@ -134,6 +144,8 @@ def run(R):
     sizes.append(dict(family="c12d (bracket openings)", patterns=n, subjects=s, max_pattern_len=5 if R.tier == "quick" else 6, max_subject_len=2))
     n, s = family(R, PAT_ALPHA5, SUBJ_ALPHA5, 5 if R.tier == "quick" else 6, 2, "c12e", roots=ROOTS5)
     sizes.append(dict(family="c12e (character classes)", patterns=n, subjects=s, max_pattern_len=5 if R.tier == "quick" else 6, max_subject_len=2))
+    n, s = family(R, PAT_ALPHA + ["[:alpha:]", "U1"], SUBJ_ALPHA + ["U1"], 8, 2, "c12r", simulate=4 if R.tier == "quick" else 150)
+    sizes.append(dict(family="c12r (seeded random patterns of 4-8 symbols)", patterns=n, subjects=s, max_pattern_len=8, max_subject_len=2))
     n, s = family(R, PAT_ALPHA6, SUBJ_ALPHA6, 4 if R.tier == "quick" else 5, 3, "c12f")
     sizes.append(dict(family="c12f (braces)", patterns=n, subjects=s, max_pattern_len=4 if R.tier == "quick" else 5, max_subject_len=3))
     for pa, sa, mp, ms, name, pairs in plan:
